@@ -24,10 +24,12 @@ import (
 
 func TestC13VirtualTime(t *testing.T) {
 	sub := lab.Sub("accounting-virtual-time", "rapid histories in virtual time against the real balancer with scripted backends: {request good/4xx/5xx/unreachable/abort-mid-body, request with an already cancelled client context, "+
-		"park a request in a backend in a drawn phase (before the response head / after the head and before any body byte / after body part k of n, k,n-k in 1..3), release it (good / 5xx resp. broken body), remove and re-register a backend (also while requests are parked in it), advance 300ms..3s across 1 s unhealthy windows and the 1 s breaker timeout}, passive checks (threshold 1-2, window 1 s) / limiter / breaker on or off, 5 strategies, 1-3 backends; "+
-		"books A1-A4 checked after every event; non-trivial = a request was still parked when its backend was ejected or re-admitted, or a cancelled-context / aborted request occurred")
+		"park a request in a backend in a drawn phase (before the response head / after the head and before any body byte / after body part k of n, k,n-k in 1..3), release it (good / 5xx resp. broken body), remove and re-register a backend (also while requests are parked in it), advance 300ms..3s (..11s when a handler timeout is configured) across 1 s unhealthy windows and the 1 s breaker timeout}; in two cases of five server.timeouts.handler is 2..10 s instead of a day, so parked requests are cut off by it once virtual time passes their deadline (before the head: answered by the proxy; after the head / mid-body: response aborted) and end as one completed request of the backend they were sent to; passive checks (threshold 1-2, window 1 s) / limiter / breaker on or off, 5 strategies, 1-3 backends; "+
+		"books A1-A4 checked after every event; non-trivial = a request was still parked when its backend was ejected or re-admitted, a parked request ran into the handler timeout, or a cancelled-context / aborted request occurred")
 	sub.NontrivialFloor(0.40)
 	sub.Floor("books-read-with-request-parked-after-head", 0.20)
+	sub.Floor("handler-timeout-before-head", 0.08)
+	sub.Floor("handler-timeout-after-head", 0.08)
 	lab.Assume("L1: scripted RoundTripper replaces http.Transport; ErrAbortHandler recovered by the harness as net/http's server would")
 	maxLen := lab.Scale(40, 80)
 	lab.Check(t, sub, 3000, 100000, func(rt *rapid.T) {
@@ -38,7 +40,16 @@ func TestC13VirtualTime(t *testing.T) {
 		limiter := rapid.IntRange(0, 3).Draw(rt, "limiter") == 0
 		breaker := rapid.IntRange(0, 3).Draw(rt, "breaker") == 0
 		steps := rapid.IntRange(3, maxLen).Draw(rt, "steps")
+		// server.timeouts.handler: a day (lab.BaseConfig: no parked request is ever cut off by it), or a few
+		// seconds, so that requests parked in a backend run into it as virtual time passes
+		handlerTO := time.Duration(0)
+		if rapid.IntRange(0, 4).Draw(rt, "handler_timeout_on") < 2 {
+			handlerTO = time.Duration(rapid.IntRange(2, 10).Draw(rt, "handler_timeout_s")) * time.Second
+		}
 		cfg := lab.BaseConfig(strategy, lab.Ones(nb))
+		if handlerTO > 0 {
+			cfg.Server.Timeouts.Handler = int(handlerTO / time.Second)
+		}
 		if passive {
 			cfg.HealthChecks.Passive = config.PassiveHealthCheckConfig{Enabled: true, UnhealthyThreshold: threshold, UnhealthyTimeout: 1}
 		}
@@ -63,6 +74,7 @@ func TestC13VirtualTime(t *testing.T) {
 		var viol string
 		interesting := false
 		parkedAfterHead := false
+		timedOutBeforeHead, timedOutAfterHead := false, false
 		rapid.SyncTest(rt, func(rt *rapid.T) {
 			defer func() { fn.ReleaseAll(); synctest.Wait() }()
 			sent, completed, limited := 0, 0, 0
@@ -74,9 +86,46 @@ func TestC13VirtualTime(t *testing.T) {
 				host string
 				ch   chan int
 				gen  int
-				ph   int // phase the request is parked in (0 before the response head, 1 after it, 2 mid-body)
+				ph   int       // phase the request is parked in (0 before the response head, 1 after it, 2 mid-body)
+				due  time.Time // when the handler timeout cuts it off (zero: never within a case)
 			}
 			var holds []held
+			// expire settles the parked requests whose handler timeout has been reached: Helios has cancelled the
+			// exchange (the scripted backends honour the request context as http.Transport does), the client has
+			// its answer - the proxy's error answer if no response head had arrived, an aborted response
+			// otherwise. Each is from now on one completed request of the backend it was sent to.
+			expire := func() {
+				synctest.Wait()
+				now := time.Now()
+				keep := holds[:0:0]
+				for _, h := range holds {
+					if h.due.IsZero() || now.Before(h.due) {
+						keep = append(keep, h)
+						continue
+					}
+					var st int
+					select {
+					case st = <-h.ch:
+					default:
+						panic(fmt.Sprintf("harness: a request parked in %s (phase %d) is still running %v after its handler timeout of %v", h.host, h.ph, now.Sub(h.due), handlerTO))
+					}
+					if h.gen == gen[h.host] {
+						parked[h.host]--
+					} else {
+						parkedOld[h.host]--
+					}
+					done[h.host]++
+					completed++
+					interesting = true
+					if h.ph == 0 {
+						timedOutBeforeHead = true
+					} else {
+						timedOutAfterHead = true
+					}
+					hist = append(hist, fmt.Sprintf("handler-timeout(%s,phase%d)->%d", h.host, h.ph, st))
+				}
+				holds = keep
+			}
 			books := func(when string) string {
 				m := lb.GetMetricsCollector().GetMetrics()
 				if int(m.TotalRequests) != sent {
@@ -115,6 +164,12 @@ func TestC13VirtualTime(t *testing.T) {
 			for s := 0; s < steps && viol == ""; s++ {
 				k := rapid.IntRange(0, 99).Draw(rt, "op")
 				client := fmt.Sprintf("10.2.0.%d:999", rapid.IntRange(1, 6).Draw(rt, "client"))
+				toDeadline := false
+				if handlerTO > 0 && len(holds) > 0 && k >= 68 && k < 78 {
+					// with a handler timeout configured, part of the release events become "nobody releases it:
+					// time passes up to the deadline of the oldest parked request"
+					k, toDeadline = 99, true
+				}
 				switch {
 				case k < 40: // plain request with a drawn behaviour on every backend
 					b := rapid.SampledFrom(behaviours).Draw(rt, "behaviour")
@@ -192,7 +247,11 @@ func TestC13VirtualTime(t *testing.T) {
 					} else {
 						h := fn.HostAt(before)
 						parked[h]++
-						holds = append(holds, held{h, ch, gen[h], phase})
+						var due time.Time
+						if handlerTO > 0 {
+							due = time.Now().Add(handlerTO)
+						}
+						holds = append(holds, held{h, ch, gen[h], phase, due})
 						hist = append(hist, "park("+pname+")->"+h)
 						if phase > 0 {
 							parkedAfterHead = true
@@ -242,8 +301,25 @@ func TestC13VirtualTime(t *testing.T) {
 					parked[host] = 0
 					gen[host]++
 				default:
-					d := rapid.SampledFrom([]time.Duration{300 * time.Millisecond, 900 * time.Millisecond, 1100 * time.Millisecond, 2100 * time.Millisecond, 3 * time.Second}).Draw(rt, "d")
+					ds := []time.Duration{300 * time.Millisecond, 900 * time.Millisecond, 1100 * time.Millisecond, 2100 * time.Millisecond, 3 * time.Second}
+					if handlerTO > 0 {
+						ds = append(ds, 5*time.Second, 11*time.Second)
+						if len(holds) > 0 && !holds[0].due.IsZero() {
+							// exactly up to / just short of / just beyond the deadline of the oldest parked request
+							left := time.Until(holds[0].due)
+							ds = append(ds, left, left+time.Millisecond)
+							if left > time.Millisecond {
+								ds = append(ds, left-time.Millisecond)
+							}
+						}
+					}
+					d := rapid.SampledFrom(ds).Draw(rt, "d")
+					if toDeadline {
+						left := time.Until(holds[0].due)
+						d = left + rapid.SampledFrom([]time.Duration{0, time.Millisecond, time.Second, handlerTO}).Draw(rt, "beyond")
+					}
 					time.Sleep(d)
+					expire()
 					if len(holds) > 0 && passive {
 						interesting = true
 					}
@@ -268,9 +344,18 @@ func TestC13VirtualTime(t *testing.T) {
 		if parkedAfterHead {
 			labels = append(labels, "books-read-with-request-parked-after-head")
 		}
-		sub.Case(map[string]any{"strategy": strategy, "backends": nb, "passive": passive, "threshold": threshold, "limiter": limiter, "breaker": breaker, "history": hist}, interesting, labels...)
+		if handlerTO > 0 {
+			labels = append(labels, "handler-timeout-configured")
+		}
+		if timedOutBeforeHead {
+			labels = append(labels, "handler-timeout-before-head")
+		}
+		if timedOutAfterHead {
+			labels = append(labels, "handler-timeout-after-head")
+		}
+		sub.Case(map[string]any{"strategy": strategy, "backends": nb, "passive": passive, "threshold": threshold, "limiter": limiter, "breaker": breaker, "handler_timeout": handlerTO.String(), "history": hist}, interesting, labels...)
 		if viol != "" {
-			rt.Fatalf("strategy %s backends %d passive %v(threshold %d) limiter %v breaker %v history %v: %s", strategy, nb, passive, threshold, limiter, breaker, hist, viol)
+			rt.Fatalf("strategy %s backends %d passive %v(threshold %d) limiter %v breaker %v handler-timeout %v history %v: %s", strategy, nb, passive, threshold, limiter, breaker, handlerTO, hist, viol)
 		}
 	})
 }
